@@ -279,21 +279,43 @@ def check_tag_loop(chk, sname, body, info, P="C13"):
                     "arms remove from a set that is not the required set", "", site, nontrivial=False)
     # after the loop: Ok only when required set is empty
     if req_local is not None:
-        empt = [(bb, t) for bb, t in body.calls() if callee(t).startswith(HS) and callee(t).endswith("::is_empty")
-                and set_local_of(tr, t["args"][0]) == req_local and bb not in loop_blocks]
+        # the emptiness test of the required set after the loop, in any spelling (is_empty / len() vs 0 or 1)
+        empt = []
+        for sbb in sorted(body.reachable(0)):
+            st_ = body.blocks[sbb]["term"]
+            if st_["t"] != "switch" or sbb in loop_blocks:
+                continue
+            v_ = tr.value(st_["d"])
+            zero_t = dict((val, tb) for val, tb in st_["targets"]).get(0)
+            if v_.kind == "call" and callee(v_.term).startswith(HS) and callee(v_.term).endswith("::is_empty") and \
+                    set_local_of(tr, v_.term["args"][0]) == req_local:
+                empt.append((sbb, st_["else"], zero_t))
+            elif v_.kind == "rv" and v_.rv["r"] == "bin" and v_.rv["op"] in ("Eq", "Ne", "Gt", "Ge", "Lt", "Le"):
+                op_ = v_.rv["op"]
+                a_, b_ = v_.rv["a"], v_.rv["b"]
+
+                def _is_len(o):
+                    x = tr.value(o)
+                    return x.kind == "call" and callee(x.term).startswith(HS) and callee(x.term).endswith("::len") and \
+                        set_local_of(tr, x.term["args"][0]) == req_local
+                n_ = None
+                if _is_len(a_):
+                    n_ = tr.const_int(b_)
+                elif _is_len(b_):
+                    n_ = tr.const_int(a_)
+                    op_ = {"Lt": "Gt", "Le": "Ge", "Gt": "Lt", "Ge": "Le"}.get(op_, op_)
+                if n_ is not None:
+                    if (op_, n_) in (("Eq", 0), ("Lt", 1), ("Le", 0)):
+                        empt.append((sbb, st_["else"], zero_t))
+                    elif (op_, n_) in (("Ne", 0), ("Gt", 0), ("Ge", 1)):
+                        empt.append((sbb, zero_t, st_["else"]))
         ok_blocks = [r for r in ret_assignments(body, body.reachable(0))
                      if r[1] != "term" and r[2]["rv"]["r"] == "agg" and r[2]["rv"].get("vname") == "Ok"]
         good = len(empt) == 1
+        fbb = tbb = None
         if good:
-            ebb, et = empt[0]
-            nxt = body.blocks[et["to"]]["term"]
-            fbb = None
-            if nxt["t"] == "switch":
-                for v, b in nxt["targets"]:
-                    if v == 0:
-                        fbb = b
-                tbb = nxt["else"]
-            good = fbb is not None and all(body.dominates(tbb, r[0]) for r in ok_blocks) and len(ok_blocks) >= 1
+            ebb, tbb, fbb = empt[0]
+            good = fbb is not None and tbb is not None and all(body.dominates(tbb, r[0]) for r in ok_blocks) and len(ok_blocks) >= 1
         chk.require(good, P + "-c/missing-check", sname,
                     "a value is returned without testing that the required set is empty", "Ok dominated by is_empty(required)", site)
         if good:
